@@ -1063,7 +1063,8 @@ class slice(Stream):
         self._check_end()
 
     def update(self, x, who=None, metadata=None):
-        if self.state >= self.star and (self.state - self.star) % self.step == 0:
+        if (self.state >= self.star and (self.state - self.star) % self.step == 0
+                and not (self.end and self.state >= self.end)):
             self.emit(x, metadata=metadata)
         self.state += 1
         self._check_end()
